@@ -14,6 +14,9 @@ package gpusharingconfigmap
 //@ define cmKey(ns string, name string) string = ns + "/" + name
 //@ define cmOf(o ref) *v1.ConfigMap = unbox(o, "*v1.ConfigMap")
 //@ define keyOfObj(o ref) string = cmKey(cmOf(o).Namespace, cmOf(o).Name)
+// well-formedness of the model: every stored object is an object that exists (one that was sent, or the placeholder
+// of a ConfigMap that existed before); objects allocated later are therefore different from every stored one
+//@ define storeWF() bool = forall k string :: allocated(cmStored(k))
 //@ declare isNotFoundErr(e ref) bool
 //@ axiom !isNotFoundErr(nil)
 
@@ -25,6 +28,7 @@ package gpusharingconfigmap
 //@   modifies fields(cmOf(obj))
 //@   ensures result == nil && typeis(obj, "*v1.ConfigMap") ==> cmStored(cmKey(key.Namespace, key.Name)) != nil && cmOf(obj).Name == key.Name && cmOf(obj).Namespace == key.Namespace
 //@   ensures result == nil && typeis(obj, "*v1.ConfigMap") ==> cmOf(obj).Data == nil || fresh(cmOf(obj).Data)
+//@   ensures result == nil && typeis(obj, "*v1.ConfigMap") ==> (forall s string :: cmOf(obj).Data[s] == cmStored(cmKey(key.Namespace, key.Name)).Data[s])
 //@   ensures isNotFoundErr(result) && typeis(obj, "*v1.ConfigMap") ==> cmStored(cmKey(key.Namespace, key.Name)) == nil
 //@ end
 // Create / Patch: success stores the content of the object that was sent, failure leaves the store alone.
@@ -48,6 +52,14 @@ package gpusharingconfigmap
 //@   props C11
 //@   pure
 //@   ensures result == isNotFoundErr(err)
+//@ end
+// strconv.Itoa is a deterministic function of its argument (named itoa so that two calls agree; the ConfigMap names
+// are built from the container index)
+//@ declare itoa(i int) string
+//@ func strconv.Itoa
+//@   props C11
+//@   pure
+//@   ensures result == itoa(arg0)
 //@ end
 // generated deep copy: a new object with the same name and namespace
 //@ func (*k8s.io/api/core/v1.ConfigMap).DeepCopy
@@ -75,7 +87,9 @@ package gpusharingconfigmap
 //@   requires kubeClient != nil && desiredConfigMap != nil && existingConfigMap != nil
 //@   requires forall k string :: !(k in desiredConfigMap.Data)     // the binder only ever upserts EMPTY ConfigMaps
 //@   requires desiredConfigMap.Name == existingConfigMap.Name && desiredConfigMap.Namespace == existingConfigMap.Namespace
+//@   requires storeWF()
 //@   modifies family(cmStored(""))
+//@   ensures [store-wf] storeWF()
 //@   loop 1 unroll 0
 //@   ensures [only-this-configmap] forall k string :: k != cmKey(desiredConfigMap.Namespace, desiredConfigMap.Name) ==> cmStored(k) == old(cmStored(k))
 //@   ensures [failure-leaves-store] result != nil ==> cmStored(cmKey(desiredConfigMap.Namespace, desiredConfigMap.Name)) == old(cmStored(cmKey(desiredConfigMap.Namespace, desiredConfigMap.Name)))
@@ -89,7 +103,9 @@ package gpusharingconfigmap
 //@   props C11
 //@   requires kubeClient != nil && pod != nil
 //@   requires forall k string :: !(k in data)
+//@   requires storeWF()
 //@   modifies family(cmStored(""))
+//@   ensures [store-wf] storeWF()
 //@   ensures [success-means-present] err == nil ==> cmStored(cmKey(pod.Namespace, configMapName)) != nil
 //@   ensures [created-configmap-owned-by-the-pod] err == nil && old(cmStored(cmKey(pod.Namespace, configMapName))) == nil ==> len(cmStored(cmKey(pod.Namespace, configMapName)).OwnerReferences) == 1 && cmStored(cmKey(pod.Namespace, configMapName)).OwnerReferences[0].UID == pod.UID && cmStored(cmKey(pod.Namespace, configMapName)).OwnerReferences[0].Kind == "Pod"
 //@   ensures [failure-leaves-store] err != nil ==> cmStored(cmKey(pod.Namespace, configMapName)) == old(cmStored(cmKey(pod.Namespace, configMapName)))
